@@ -6,10 +6,13 @@
 package vnet
 
 import (
+	"bytes"
 	"context"
 	"encoding/json"
 	"fmt"
 	"sort"
+
+	"cosmossdk.io/log"
 	"time"
 
 	sdkmath "cosmossdk.io/math"
@@ -127,6 +130,55 @@ type Chain struct {
 	Logger  *ChainLogger
 	// OnBlock, if set, sees every committed block (inputs and results).
 	OnBlock func(txs [][]byte, res *abci.ResponseFinalizeBlock, r *Result)
+
+	// DB is the node's database. With RestartEvery = n > 0, every n-th block that carries transactions is also
+	// executed by a "restarted node": a fresh application opened on a copy of the database as committed so far
+	// (nothing cached in memory). OnRestart is told the outcome: diff == "" when the restarted node produced the
+	// same results and app hash.
+	DB           dbm.DB
+	RestartEvery int
+	OnRestart    func(height int64, diff string)
+	txBlocks     int
+}
+
+// restartedApp opens a fresh application on a copy of the committed database.
+func (c *Chain) restartedApp() *simapp.SimApp {
+	cp := dbm.NewMemDB()
+	it, err := c.DB.Iterator(nil, nil)
+	must(err)
+	for ; it.Valid(); it.Next() {
+		must(cp.Set(append([]byte{}, it.Key()...), append([]byte{}, it.Value()...)))
+	}
+	must(it.Close())
+	return simapp.NewSimApp(log.NewNopLogger(), cp, nil, true, simapp.EmptyAppOptions{}, baseapp.SetChainID(c.Name))
+}
+
+// compareRestarted runs the block on the restarted node and describes the first difference.
+func (c *Chain) compareRestarted(rep *simapp.SimApp, req *abci.RequestFinalizeBlock, res *abci.ResponseFinalizeBlock) string {
+	res2, err := rep.FinalizeBlock(req)
+	if err != nil {
+		return "restarted node failed the block: " + err.Error()
+	}
+	if _, err := rep.Commit(); err != nil {
+		return "restarted node failed to commit: " + err.Error()
+	}
+	defer rep.Close()
+	if len(res.TxResults) != len(res2.TxResults) {
+		return fmt.Sprintf("%d vs %d tx results", len(res.TxResults), len(res2.TxResults))
+	}
+	for i := range res.TxResults {
+		a, _ := res.TxResults[i].Marshal()
+		b, _ := res2.TxResults[i].Marshal()
+		if !bytes.Equal(a, b) {
+			x, y := res.TxResults[i], res2.TxResults[i]
+			return fmt.Sprintf("tx %d: running node code=%d gas=%d log=%q events=%d / restarted node code=%d gas=%d log=%q events=%d",
+				i, x.Code, x.GasUsed, x.Log, len(x.Events), y.Code, y.GasUsed, y.Log, len(y.Events))
+		}
+	}
+	if !bytes.Equal(c.App.LastCommitID().Hash, rep.LastCommitID().Hash) {
+		return fmt.Sprintf("app hash %x (running node) vs %x (restarted node)", c.App.LastCommitID().Hash, rep.LastCommitID().Hash)
+	}
+	return ""
 }
 
 func detSecp(seed int64, tag string) cryptotypes.PrivKey {
@@ -208,6 +260,7 @@ func NewChain(net *Network, name string, nVals, nAccs int) *Chain {
 	})
 	must(err)
 	c.App = app
+	c.DB = db
 	c.NextHeight = 1
 	c.GovAddr = authtypes.NewModuleAddress(govtypes.ModuleName).String()
 	c.last = Dump{}
@@ -303,15 +356,26 @@ func diffDumps(a, b Dump) []KV {
 func (c *Chain) Commit(txs [][]byte) *Result {
 	h := c.NextHeight
 	t := c.Net.Now
-	res, err := c.App.FinalizeBlock(&abci.RequestFinalizeBlock{
-		Height: h, Time: t, NextValidatorsHash: c.Vals.Hash(), Txs: txs,
-	})
+	var rep *simapp.SimApp
+	if c.RestartEvery > 0 && len(txs) > 0 && c.DB != nil {
+		if c.txBlocks++; c.txBlocks%c.RestartEvery == 0 {
+			rep = c.restartedApp()
+		}
+	}
+	req := &abci.RequestFinalizeBlock{Height: h, Time: t, NextValidatorsHash: c.Vals.Hash(), Txs: txs}
+	res, err := c.App.FinalizeBlock(req)
 	must(err)
 	if len(res.ValidatorUpdates) != 0 && h > 1 {
 		panic("vnet: validator set changed")
 	}
 	_, err = c.App.Commit()
 	must(err)
+	if rep != nil {
+		d := c.compareRestarted(rep, req, res)
+		if c.OnRestart != nil {
+			c.OnRestart(h, d)
+		}
+	}
 	// header for height h carries the app hash after h-1
 	c.Headers[h] = c.makeHeader(h, t, c.LastAppHash)
 	c.LastAppHash = c.App.LastCommitID().Hash
